@@ -84,6 +84,12 @@ deriving Repr, DecidableEq
 /-- frames the client writes -/
 inductive OutFrame where
   | headers (sid : Nat) (endStream : Bool) (fields : List (Bytes × Bytes))
+  /-- on the wire only (`writeHeaderBlock`): a HEADERS frame without END_HEADERS carrying the first `len` octets of a
+  header block that is longer than the server's SETTINGS_MAX_FRAME_SIZE … -/
+  | hfrag (sid : Nat) (endStream : Bool) (len : Nat)
+  /-- … and the CONTINUATION frames that follow it; the one with END_HEADERS is where the scripted server has the whole
+  block and prints its fields -/
+  | cont (sid : Nat) (endHeaders : Bool) (len : Nat) (fields : List (Bytes × Bytes))
   | data (sid len : Nat) (endStream : Bool)
   | rst (sid code : Nat)
   | settingsAck
@@ -578,12 +584,39 @@ def encodeHeaders (c : Conn) (fields : List (Bytes × Bytes)) : Conn × Nat :=
       (st', acc.2.1 + bs.length, acc.2.2 + 1)) (enc, 0, 0)
   ({ c with enc := acc.1, encTableSet := false }, acc.2.1)
 
+/-- `frameStep`: the largest frame payload the server is willing to receive, as `writeData` and `writeRequest` use it -/
+def frameStep (c : Conn) : Nat :=
+  if c.maxFrameSize == 0 || c.maxFrameSize > Gen.c_maxFrameSize then Gen.c_defaultDataFrameSize else c.maxFrameSize
+
+/-- the CONTINUATION loop of `writeHeaderBlock`: the lengths of the pieces of at most `step` octets the `n` octets left
+are written in -/
+def cutLens (step : Nat) : Nat → Nat → List Nat
+  | 0, _ => []
+  | fuel + 1, n => if n == 0 then [] else min n step :: cutLens step fuel (n - step)
+
+/-- `writeHeaderBlock`: the fragment lengths of a block of `n` octets — the first `step` octets (all of them when there
+are no more), then the rest in pieces of at most `step` -/
+def blockLens (step n : Nat) : List Nat := min n step :: cutLens step n (n - step)
+
+/-- the CONTINUATION frames for the fragments after the first; END_HEADERS (and what the server decodes) on the last -/
+def contFrames (sid : Nat) (fields : List (Bytes × Bytes)) : List Nat → List OutFrame
+  | [] => []
+  | l :: rest => .cont sid rest.isEmpty l (if rest.isEmpty then fields else []) :: contFrames sid fields rest
+
+/-- the frames one queued HEADERS frame is written as: itself when the block fits, else HEADERS without END_HEADERS
+(END_STREAM stays on it) and CONTINUATION frames -/
+def headerFrames (sid : Nat) (es : Bool) (fields : List (Bytes × Bytes)) : List Nat → List OutFrame
+  | [] => []
+  | l :: rest => (if rest.isEmpty then .headers sid es fields else .hfrag sid es l) :: contFrames sid fields rest
+
 /-- octets of the frames a step writes (frame header of 9 octets included) -/
 def wireBytes (c : Conn) : List OutFrame → Conn × Nat
   | [] => (c, 0)
   | f :: fs =>
     let (c, n) := match f with
-      | .headers _ _ fields => let (c, n) := encodeHeaders c fields; (c, 9 + n)
+      | .headers _ _ fields => let (c', n) := encodeHeaders c fields; (c', 9 * (blockLens (frameStep c) n).length + n)
+      | .hfrag _ _ len => (c, 9 + len)
+      | .cont _ _ len _ => (c, 9 + len)
       | .data _ len _ => (c, 9 + len)
       | .rst _ _ => (c, 13)
       | .settingsAck => (c, 9)
@@ -591,6 +624,15 @@ def wireBytes (c : Conn) : List OutFrame → Conn × Nat
       | .windowUpdate _ _ => (c, 13)
     let (c, m) := wireBytes c fs
     (c, n + m)
+
+/-- the frames as they go out: each queued HEADERS frame cut by `writeHeaderBlock` (the encoder is threaded through as in
+`wireBytes`, the block length decides the number of frames) -/
+def wireFrames (c : Conn) : List OutFrame → List OutFrame
+  | [] => []
+  | .headers sid es fields :: fs =>
+    let x := encodeHeaders c fields
+    headerFrames sid es fields (blockLens (frameStep c) x.2) ++ wireFrames x.1 fs
+  | f :: fs => f :: wireFrames c fs
 
 /-- something is waiting for the write loop -/
 def enqueued (c : Conn) : Bool := !c.outQ.isEmpty || c.winTok
@@ -620,12 +662,12 @@ inductive StepOut where
 
 /-- the step's frames go to the transport: all of them if the budget covers them, else the connection ends
 on the write error -/
-def afterWrites (c : Conn) (fs : List OutFrame) : Conn × StepOut :=
-  let (c, total) := wireBytes c fs
+def afterWrites (c0 : Conn) (fs : List OutFrame) : Conn × StepOut :=
+  let (c, total) := wireBytes c0 fs
   match c.wbudget with
-  | none => (c, .frames fs)
+  | none => (c, .frames (wireFrames c0 fs))
   | some b =>
-    if total ≤ b then ({ c with wbudget := some (b - total) }, .frames fs)
+    if total ≤ b then ({ c with wbudget := some (b - total) }, .frames (wireFrames c0 fs))
     else (dieWith c .writeErr, .dead)
 
 /-! ## events -/
